@@ -62,20 +62,21 @@ CONTRACTS = {
         types={"oViolation": VIOL},
         fields={"vsg.violation.New.action": "opt[rec{spaces:int}]"},
         requires=[
-            # V_F: regions are [left, whitespace, right] or [left, right]; removing the space is only asked for when there is one
-            "(len(%s) == 3 and isinstance(%s[1], %s)) or len(%s) == 2" % (S, S, WS, S),
-            "not isinstance(%s[0], (parser.whitespace, parser.carriage_return, parser.blank_line)) and not isinstance(%s[len(%s) - 1], (parser.whitespace, parser.carriage_return, parser.blank_line))" % (S, S, S),
+            # V_F: regions have two or three tokens ([left, white space, right], [left, right], or a token and the two after it);
+            # removing the space is only asked for when the middle token is white space (run-time monitor: observed on every
+            # real call of the bounded universe, including the subclasses that choose their regions differently)
+            "len(%s) == 2 or len(%s) == 3" % (S, S),
             "oViolation.action is not None",
-            "implies(self.number_of_spaces == 0, len(%s) == 3)" % S,
+            "implies(self.number_of_spaces == 0, len(%s) == 3 and isinstance(%s[1], %s))" % (S, S, WS),
         ],
         modifies=["oViolation.oTokens.lTokens", "heap:item.value", "heap:item.code_tags", "heap:item.has_tabs"],
         ensures=[
             "nonblank(%s) == nonblank(old(%s))" % (S, S),
             "ncr(%s) == ncr(old(%s))" % (S, S),
-            "values(nonblank(%s)) == old(values(nonblank(%s)))" % (S, S),
+            "forall(lambda k: implies(not isinstance(old(%s)[k], parser.whitespace), old(%s)[k].value == old(values(%s))[k]), 0, len(old(%s)))" % (S, S, S, S),
             # C10: the middle token is white space of exactly the requested width (or gone when 0 is requested)
             "implies(self.number_of_spaces == 0, len(%s) == 2)" % S,
-            "implies(self.number_of_spaces != 0, len(%s) == 3 and isinstance(%s[1], %s) and %s[1].value == ' ' * old(oViolation.action['spaces']))" % (S, S, WS, S),
+            "implies(self.number_of_spaces != 0, isinstance(%s[1], %s) and %s[1].value == ' ' * old(oViolation.action['spaces']))" % (S, WS, S),
         ],
     ),
     # ------------------------------------------------------------------ token_case (phase 6)
@@ -159,9 +160,8 @@ CONTRACTS.update(
 
 VF_WS = (
     "self.violations[k].action is not None"
-    " and ((len({V}) == 3 and isinstance({V}[1], parser.whitespace)) or len({V}) == 2)"
-    " and not isinstance({V}[0], {NB}) and not isinstance({V}[len({V}) - 1], {NB})"
-    " and implies(self.number_of_spaces == 0, len({V}) == 3)"
+    " and (len({V}) == 3 or len({V}) == 2)"
+    " and implies(self.number_of_spaces == 0, len({V}) == 3 and isinstance({V}[1], parser.whitespace))"
 ).format(V=V_.format(k="k"), NB=NB)
 
 WSFIELDS = {"vsg.violation.New.action": "opt[rec{spaces:int}]", "vsg.violation.New.remap": "bool", "vsg.violation.New.fix_blank_lines": "bool", "vsg.violation.New.sSolution": "str"}
@@ -173,9 +173,10 @@ CONTRACTS.update(
             fields=WSFIELDS,
             dict_literals="record",
             requires=[
-                # shape of the regions from get_sequence_of_tokens_matching([left, whitespace, right]) / ([left, right]) (assumed;
-                # that left_token / right_token are never white-space classes is checked on every real rule object)
-                "forall(lambda j: (len({T}) == 3 and isinstance({T}[1], parser.whitespace) and not isinstance({T}[0], {NB}) and not isinstance({T}[2], {NB})) or (len({T}) == 2 and not isinstance({T}[0], {NB}) and not isinstance({T}[1], {NB})), 0, len(lToi))".format(T=T_.format(k="j"), NB=NB),
+                # shape of the regions: get_sequence_of_tokens_matching([left, whitespace, right]) / ([left, right]) in the base
+                # class, get_token_and_n_tokens_after_it(tokens, 2) and the like in its subclasses: two or three tokens (assumed
+                # here; observed by the run-time monitor through V_F)
+                "forall(lambda j: len({T}) == 3 or len({T}) == 2, 0, len(lToi))".format(T=T_.format(k="j")),
             # a valid option value (docs/configuring_whitespace_rules.rst): an integer, or a string '>N', '>=N', '<N', '<=N', 'N+';
             # int() of a malformed N raises ValueError
             "isinstance(self.number_of_spaces, int) or self.number_of_spaces.startswith('>') or self.number_of_spaces.startswith('<') or self.number_of_spaces.endswith('+')",
@@ -212,4 +213,93 @@ CONTRACTS["vsg.rules.whitespace_between_tokens.Rule.create_violation"] = dict(
         "forall(lambda j: self.violations[j] == old(self.violations)[j], 0, len(old(self.violations)))",
         "implies(len(self.violations) > len(old(self.violations)), self.violations[len(old(self.violations))].oTokens == oToi and self.violations[len(old(self.violations))].action is not None)",
     ],
+)
+
+# ------------------------------------------------------------------------------------------------ more fix bases
+# Effect contracts (C01/C02/C03: the non-white-space tokens of the region are the same objects in the same order, and no value
+# of such a token is written: item.value is either outside the frame or written at white-space tokens only; C07 where the phase may not change the line count).  The preconditions V_F are what the base's _analyze puts into the
+# action dictionary; they are ASSUMED here (the analyses build them through dictionaries and regions outside the subset) and
+# observed by the bounded layer, which evaluates the same effect clauses at every real rule.fix().
+ALIGN = dict(
+    types={"oViolation": VIOL},
+    fields={"vsg.violation.New.action": "opt[rec{token_index:int,adjust:int}]"},
+    requires=[
+        "oViolation.action is not None",
+        # the aligned token is not the first of its region and the region names it
+        "1 <= oViolation.action['token_index'] and oViolation.action['token_index'] < len(%s)" % S,
+    ],
+    modifies=["oViolation.oTokens.lTokens", "heap:item.value", "heap:item.code_tags", "heap:item.has_tabs"],
+    ensures=[
+        "nonblank(%s) == nonblank(old(%s))" % (S, S),
+        "ncr(%s) == ncr(old(%s))" % (S, S),
+        # the only value that is written is that of a white-space token
+        "forall(lambda k: implies(not isinstance(old(%s)[k], parser.whitespace), old(%s)[k].value == old(values(%s))[k]), 0, len(old(%s)))" % (S, S, S, S),
+    ],
+)
+BLANK_ACTION = {"vsg.violation.New.action": "opt[rec{action:str}]"}
+BLANK_APPEND = dict(
+    types={"oViolation": VIOL},
+    fields=BLANK_ACTION,
+    requires=[
+        "oViolation.action is not None",
+        # V_F: a 'Remove' is only asked for a region that consists of blank lines, white space and line breaks
+        "implies(oViolation.action['action'] == 'Remove', nonblank(%s) == [])" % S,
+    ],
+    modifies=["oViolation.oTokens.lTokens"],
+    ensures=[
+        # vertical-spacing rules add or drop blank lines only: every other token is still there, same object, same order
+        "nonblank(%s) == nonblank(old(%s))" % (S, S),
+        "implies(old(oViolation.action['action']) == 'Insert', %s == old(%s) + [%s[len(%s) - 2], %s[len(%s) - 1]] and isinstance(%s[len(%s) - 2], parser.carriage_return) and isinstance(%s[len(%s) - 1], parser.blank_line))" % (S, S, S, S, S, S, S, S, S, S),
+        "implies(old(oViolation.action['action']) == 'Remove', %s == [])" % S,
+    ],
+)
+CONTRACTS.update(
+    {
+        "vsg.rules.align_tokens_in_region_between_tokens.align_tokens_in_region_between_tokens._fix_violation": dict(ALIGN),
+        "vsg.rules.align_tokens_in_region_between_tokens_skipping_lines_starting_with_tokens.align_tokens_in_region_between_tokens_skipping_lines_starting_with_tokens._fix_violation": dict(ALIGN),
+        "vsg.rules.previous_line.previous_line._fix_violation": dict(BLANK_APPEND),
+        "vsg.rules.blank_line_above_line_starting_with_token.blank_line_above_line_starting_with_token._fix_violation": dict(BLANK_APPEND),
+        "vsg.rules.blank_line_below_line_ending_with_token.blank_line_below_line_ending_with_token._fix_violation": dict(
+            types={"oViolation": VIOL},
+            fields=BLANK_ACTION,
+            requires=["oViolation.action is not None", "len(%s) >= 1" % S, "implies(oViolation.action['action'] == 'Remove', nonblank(%s) == [])" % S],
+            modifies=["oViolation.oTokens.lTokens", "heap:item.code_tags"],
+            ensures=[
+                "nonblank(%s) == nonblank(old(%s))" % (S, S),
+                "implies(old(oViolation.action['action']) == 'Insert', len(%s) == len(old(%s)) + 2 and isinstance(%s[0], parser.blank_line) and isinstance(%s[1], parser.carriage_return) and %s[2:] == old(%s))" % (S, S, S, S, S, S),
+                "implies(old(oViolation.action['action']) == 'Remove', %s == [])" % S,
+            ],
+        ),
+        "vsg.rules.remove_excessive_blank_lines_above_line_starting_with_token.remove_excessive_blank_lines_above_line_starting_with_token._fix_violation": dict(
+            types={"oViolation": VIOL},
+            fields={"vsg.violation.New.action": "opt[rec{index:int}]"},
+            requires=[
+                "oViolation.action is not None",
+                "0 <= oViolation.action['index'] and oViolation.action['index'] <= len(%s)" % S,
+                # V_F: what is cut off is blank lines and line breaks only
+                "nonblank(%s[oViolation.action['index']:]) == []" % S,
+            ],
+            modifies=["oViolation.oTokens.lTokens"],
+            ensures=["nonblank(%s) == nonblank(old(%s))" % (S, S), "%s == old(%s)[:oViolation.action['index']]" % (S, S)],
+        ),
+        "vsg.rules.consistent_token_case.consistent_token_case._fix_violation": dict(
+            types={"oViolation": VIOL},
+            fields={"vsg.violation.New.action": "opt[rec{expected:str}]"},
+            requires=[
+                "len(%s) >= 1" % S,
+                "oViolation.action is not None",
+                "forall(lambda k: %s[k] != %s[0], 1, len(%s))" % (S, S, S),
+                # V_F (assumed): the expected spelling is that of an earlier declaration, equal up to letter case
+                "lower(oViolation.action['expected']) == lower(%s[0].value) and len(oViolation.action['expected']) == len(%s[0].value)" % (S, S),
+            ],
+            modifies=["heap:item.value", "oViolation.oTokens.lTokens"],
+            ensures=[
+                "%s == old(%s)" % (S, S),
+                "forall(lambda k: %s[k].value == old(values(%s))[k], 1, len(%s))" % (S, S, S),
+                "lower(%s[0].value) == lower(old(values(%s))[0])" % (S, S),
+                "len(%s[0].value) == len(old(values(%s))[0])" % (S, S),
+                "%s[0].value == oViolation.action['expected']" % S,
+            ],
+        ),
+    }
 )
